@@ -20,7 +20,7 @@ if ! ( cd "$dir" && go build ./... && go build -tags verif ./... ) >"$dir.testlo
   echo "MUTANT $name: BUILD-FAIL: $(head -3 "$dir.testlog" | tr '\n' ' ')"; rm -rf "$dir" "$dir.testlog"; exit 4
 fi
 # xtime's TestJitterTicker is timing-sensitive (listed as always_fail in the baseline): not used as a gate.
-( cd "$dir" && go test -vet=off -count=1 $(go list ./... | grep -v /xtime) 2>&1 | grep -v '^ok\|no test files' | tail -5 ) >"$dir.testlog" 2>&1
+( cd "$dir" && go test -vet=off -count=1 -timeout 180s $(go list ./... | grep -v /xtime) 2>&1 | grep -v '^ok\|no test files' | tail -5 ) >"$dir.testlog" 2>&1
 if [ -s "$dir.testlog" ]; then tests="TESTS-FAIL: $(head -2 "$dir.testlog" | tr '\n' ' ' | cut -c1-100)"; else tests="tests-pass"; fi
 res=""
 for p in "$@"; do
